@@ -292,6 +292,7 @@ func (m *Muxer) WriteData(d *MuxerData) (int, error) {
 				if n == 0 {
 					ctx.cc = cc
 				}
+				m.resetBitsWriter()
 				return bytesWritten, err
 			}
 
@@ -311,7 +312,17 @@ func (m *Muxer) WriteData(d *MuxerData) (int, error) {
 // Writes given packet to MPEG-TS stream
 // Stuffs with 0xffs if packet turns out to be shorter than target packet length
 func (m *Muxer) WritePacket(p *Packet) (int, error) {
-	return writePacket(m.bitsWriter, p, m.packetSize)
+	n, err := writePacket(m.bitsWriter, p, m.packetSize)
+	if err != nil {
+		m.resetBitsWriter()
+	}
+	return n, err
+}
+
+// resetBitsWriter drops the bits writer a failed write went through: it keeps the byte it could not hand to the
+// underlying writer, and everything written through it afterwards would be shifted and miscounted
+func (m *Muxer) resetBitsWriter() {
+	m.bitsWriter = astikit.NewBitsWriter(astikit.BitsWriterOptions{Writer: m.w})
 }
 
 func (m *Muxer) retransmitTables(force bool) (int, error) {
